@@ -45,6 +45,44 @@ def rayon_launches(ck, fn):
     return out
 
 
+def norm_ty(t):
+    import re
+    t = re.sub(r"'\w+", "'_", t or "")
+    return t.replace("std::borrow::Cow", "alloc::borrow::Cow")
+
+
+def scheduling_key_type(ck, par, rule):
+    """Two names are 'the same file' for the scheduler exactly when they are for the workers' file maps: the distributor is keyed by the
+    very type that keys ModifiedFiles (same Eq / Hash - e.g. Path compares components, OsStr bytes)."""
+    prog = ck.prog
+    a = prog.adts.get("rapidquilt::apply::common::ModifiedFiles")
+    mk = None
+    if a:
+        for f in a["variants"][0]["fields"]:
+            if "HashMap<" in f["ty"]:
+                inner = f["ty"][f["ty"].index("HashMap<") + len("HashMap<"):]
+                from ..errflow import split_top
+                mk = norm_ty(split_top(inner[:-1])[0])
+    keys = set()
+    for bb, t, c in calls_named(par, "FilenameDistributor::<T>::new") + calls_named(par, "FilenameDistributor::<T>::add"):
+        for x in c.get("fnargs") or []:
+            keys.add(norm_ty(x))
+    ck.require(mk is not None and keys == {mk}, rule, "the scheduler and the file maps identify files by the same key type",
+               "FilenameDistributor is keyed by %s, ModifiedFiles by %s: names that are one file for a worker (equal as %s) can be two files for the "
+               "scheduler and land on different workers" % (sorted(keys), mk, mk), par.where(), ok_detail="both keyed by %s" % mk)
+    # the dispatch lookup uses the same type again
+    idx = [(bb, t) for bb, t in par.calls() if (callee_of(t).get("path") or "").endswith("Index::index") and "HashMap" in (t["argtys"][0] if t["argtys"] else "")]
+    for bb, t in idx:
+        kt = norm_ty(split_top_first(t["argtys"][0]))
+        ck.require(kt == mk, rule, "the dispatch map is keyed by that type as well", "dispatch map key is %s" % kt, par.where(t))
+
+
+def split_top_first(ty):
+    from ..errflow import split_top
+    i = ty.index("HashMap<") + len("HashMap<")
+    return split_top(ty[i:-1])[0]
+
+
 def related_names_registered(ck, par, adds, rule):
     """Path-sensitive part of 'both names are scheduled together': the related name handed to the distributor may be None only
     where the file patch has a single name (one of old_filename()/new_filename() is None) or the two names compared equal."""
@@ -206,6 +244,10 @@ def run(ck):
     c04.r3b_pop_after_rollback(ck, rule="C06-R9")
 
     # ---- R7 conflicting effects in one parallel region ---------------------------------------------------------------------
+    def region_label(cl):
+        """Name a parallel region by the worker function its closure runs (closure numbers change with every edit)."""
+        names = [s_.callee.split("::")[-1] for s_ in cg.out[cl.id] if s_.callee in prog.fns and "{closure" not in s_.callee and s_.kind == "call"]
+        return "the workers running " + "/".join(sorted(set(names))) if names else "a rayon closure of " + cl.id.split("::{closure")[0].split("::")[-1]
     for site, cl, agg in launches:
         reach = cg.closure([cl.id])
         labs = {}
@@ -215,7 +257,7 @@ def run(ck):
                 labs.setdefault(lab, []).append(s)
         rm = labs.get("rmdir", [])
         mk = labs.get("mkdir", []) + labs.get("create", [])
-        ck.require(not (rm and mk), "C06-R7", "no rmdir next to create in parallel region %s" % cl.id,
+        ck.require(not (rm and mk), "C06-R7", "no rmdir next to create among %s" % region_label(cl),
                    "directory removal (%s) and creation (%s) are both reachable from one parallel region: a worker can remove a directory "
                    "between another worker's create_dir_all and File::create" % (
                        sorted({s.caller.id for s in rm}), sorted({s.caller.id for s in mk})), site.where(),
@@ -256,8 +298,8 @@ def run(ck):
         mk = [s_ for s_, lab in cg.fs_write_sites() if s_.caller.id in reach and lab == "mkdir" and
               not df.mentions_deep(s_.caller, df.operand_expr(s_.caller, s_.term["args"][0]), lambda x: df.is_const(x, ".pc"))]
         for fn_, bb_, t_ in tol:
-            ck.require(not mk, "C06-R7", "missing-directory-tolerant creation in %s next to directory creation in parallel region %s" % (
-                fn_.id, cl.id.split("::")[-1]),
+            ck.require(not mk, "C06-R7", "missing-directory-tolerant creation in %s next to directory creation among %s" % (
+                fn_.id.split("::")[-1], region_label(cl)),
                 "%s skips its output when the directory does not exist, while other workers of the same parallel region create directories "
                 "(%s): whether the file is written depends on the schedule; the sequential driver writes all rejects before anything is saved" % (
                     fn_.id, sorted({s_.caller.id for s_ in mk})), fn_.where(t_),
@@ -287,6 +329,7 @@ def run(ck):
                    "the related name handed to the distributor never derives from new_filename(): a file patch whose old and new names "
                    "differ is scheduled by one name only, so two workers can own the same file", par.where(t), ok_detail="derives from %s" % sorted(n2))
     related_names_registered(ck, par, adds, "C06-R8")
+    scheduling_key_type(ck, par, "C06-R8")
     # dispatch key
     idx = [(bb, t) for bb, t in par.calls() if (callee_of(t).get("path") or "").endswith("Index::index") and "HashMap" in (t["argtys"][0] if t["argtys"] else "")]
     ck.floor("C06-R8", "dispatch lookups in the thread map", len(idx), 1)
